@@ -108,8 +108,14 @@ def build_args(s):
     return method, url, headers, content, ext
 
 
-def transmit_sync(s, times=2):
+def transmit_sync(s, times=2, seq=None):
+    """seq: a history of shapes with the same given header list: the caller passes the SAME list
+    object (and the same extensions dict) with every request."""
     peers = []
+    shared = build_args(seq[0]) if seq else None
+    if seq:
+        s = seq[0]
+        times = len(seq)
 
     def factory(rec):
         p = H2ServerPeer() if s["proto"] == "h2" else H11Peer()
@@ -123,7 +129,9 @@ def transmit_sync(s, times=2):
     pool = httpcore.ConnectionPool(**kw)
     obs = []
     for k in range(times):
-        method, url, headers, content, ext = build_args(s)
+        method, url, headers, content, ext = build_args(seq[k] if seq else s)
+        if seq:
+            headers, ext = shared[2], shared[4]
         before = sum(len(w[0]) for r in net.streams for w in r.written)
         o = {}
         try:
@@ -136,7 +144,7 @@ def transmit_sync(s, times=2):
             o["kind"] = type(e).__name__
         o["written"] = sum(len(w[0]) for r in net.streams for w in r.written) - before
         if o["kind"] == "ok":
-            o.update(parsed(s, peers, k))
+            o.update(parsed(seq[k] if seq else s, peers, k))
         obs.append(o)
         if o["kind"] != "ok":
             break
@@ -144,9 +152,14 @@ def transmit_sync(s, times=2):
     return obs, o_streams
 
 
-def transmit_async(s, times=2):
+def transmit_async(s, times=2, seq=None):
     from .simnet import AsyncSimBackend
     from .vloop import VLoop
+
+    shared = build_args(seq[0]) if seq else None
+    if seq:
+        s = seq[0]
+        times = len(seq)
 
     loop = VLoop()
     loop.enter()
@@ -170,7 +183,9 @@ def transmit_async(s, times=2):
 
     async def main():
         for k in range(times):
-            method, url, headers, content, ext = build_args(s)
+            method, url, headers, content, ext = build_args(seq[k] if seq else s)
+            if seq:
+                headers, ext = shared[2], shared[4]
             before = sum(len(w[0]) for r in net.streams for w in r.written)
             o = {}
             try:
@@ -181,7 +196,7 @@ def transmit_async(s, times=2):
                 o["kind"] = type(e).__name__
             o["written"] = sum(len(w[0]) for r in net.streams for w in r.written) - before
             if o["kind"] == "ok":
-                o.update(parsed(s, peers, k))
+                o.update(parsed(seq[k] if seq else s, peers, k))
             obs.append(o)
             if o["kind"] != "ok":
                 break
@@ -279,6 +294,32 @@ def run_into(chk, prop, tier):
             o.setdefault("ended", False)
         traces.append({"shape": s, "obs": obs})
         metas.append({"mode": mode, "streams": nstreams})
+    # histories in which the caller re-uses its header-list object (and extensions dict) for requests
+    # whose bodies differ: every transmission is judged against its own shape
+    hist = []
+    for s in all_shapes():
+        if s["bad"] != "none" or s["cl"] or s["te"] or s["target"] not in ("path", "ext"):
+            continue
+        if s["content"] != "bytes5" or s["method"] != "POST":
+            continue
+        for other in ("bytes0", "iter23", "none", "iterempty"):
+            s2 = dict(s, content=other, method="M-X" if other == "none" else s["method"])
+            if valid(s2):
+                hist.append([s, s2, s])
+                hist.append([s2, s, s2])
+    if tier == "quick":
+        rng.shuffle(hist)
+        hist = hist[:200]
+    for idx, seq in enumerate(hist):
+        mode = "sync" if (idx % 2) else "async"
+        obs, nstreams = (transmit_sync if mode == "sync" else transmit_async)(None, seq=seq)
+        evals += len(obs)
+        for o in obs:
+            for k_, d_ in (("method", ""), ("target", ""), ("headers", []), ("body", []), ("endOnHeaders", False), ("ended", False)):
+                o.setdefault(k_, d_)
+        traces.append({"shape": seq[0], "shapes": seq, "obs": obs})
+        metas.append({"mode": mode, "streams": nstreams, "history": "shared header list object"})
+    chk.coverage["shared_argument_histories"] = len(hist)
     verdicts, stats = validate(traces)
     rejected = [(t, m, v) for t, m, v in zip(traces, metas, verdicts) if v[0] != "ACCEPT"]
     accepted = [t for t, v in zip(traces, verdicts) if v[0] == "ACCEPT"]
@@ -299,7 +340,7 @@ def run_into(chk, prop, tier):
         if v[0] == "ACCEPT":
             raise tlc.MachineryError(f"canary '{name}' was ACCEPTED: ReqWireTrace does not bind")
     for t, m, v in rejected:
-        what = f"request on the wire rejected by ReqWireTrace at transmission {v[1]}: shape {t['shape']} ({m['mode']}) parsed {t['obs'][min(v[1], len(t['obs'])) - 1]}"
+        what = f"request on the wire rejected by ReqWireTrace at transmission {v[1]}: shape {(t.get('shapes') or [t['shape']] * 9)[min(v[1], len(t['obs'])) - 1]} ({m['mode']}{', ' + m['history'] if m.get('history') else ''}) parsed {t['obs'][min(v[1], len(t['obs'])) - 1]}"
         chk.classify({"module": "ReqWire", "deviation": ["<none>"], "stimulus": [t["shape"]["proto"]]}, what, {"trace": t, "meta": m, "verdict": list(v)})
     cov = chk.coverage
     cov["evaluations"] = evals
